@@ -216,7 +216,7 @@ func fire(job cron.Job, ch chan string) ([]string, error) {
 		job.Run()
 	}()
 	var evs []string
-	timeout := time.After(5 * time.Second)
+	timeout := time.After(15 * time.Second)
 	for {
 		select {
 		case e := <-ch:
@@ -231,7 +231,7 @@ func fire(job cron.Job, ch chan string) ([]string, error) {
 				}
 			}
 		case <-timeout:
-			return evs, fmt.Errorf("the cron job did not return within 5s")
+			return evs, fmt.Errorf("the cron job did not return within 15s")
 		}
 	}
 }
@@ -556,8 +556,8 @@ func (s *sut) barrier() error {
 	for i := 0; i < 2; i++ {
 		select {
 		case s.sm.Ch() <- "@verif-barrier":
-		case <-time.After(5 * time.Second):
-			return fmt.Errorf("the events handler did not take an event from ScheduleCh within 5s")
+		case <-time.After(15 * time.Second):
+			return fmt.Errorf("the events handler did not take an event from ScheduleCh within 15s")
 		}
 	}
 	return nil
@@ -681,8 +681,8 @@ func (s *sut) observe(st *Step, r *Result, only string) *violation {
 				go func(j cron.Job) { defer close(done); j.Run() }(e.Job)
 				select {
 				case <-done:
-				case <-time.After(5 * time.Second):
-					return &violation{"C11/operator/cron/job-blocked", "the cron job did not deliver its event within 5s"}
+				case <-time.After(15 * time.Second):
+					return &violation{"C11/operator/cron/job-blocked", "the cron job did not deliver its event within 15s"}
 				}
 			}
 			if err := s.barrier(); err != nil {
